@@ -89,6 +89,10 @@ char *vh_key_jwk(const vh_key_t *k, int priv, const char *alg, const char *kid, 
 /* load into libjwt under the *current* provider; returns item (owned by *set) */
 const jwk_item_t *vh_key_load(const vh_key_t *k, int priv, const char *alg, jwk_set_t **set);
 extern const char *vh_load_kid;
+/* tracking allocator: foreign frees and writes after free inside uninstrumented libraries (single-threaded drivers only) */
+void vh_alloc_install(void);
+void vh_alloc_checkpoint(void);
+extern unsigned long vh_alloc_blocks, vh_alloc_checked;
 
 /* ---- reference crypto (OpenSSL directly) ---------------------------------- */
 /* sign msg with key for alg; returns malloc'd raw JWS signature (ES: r||s), NULL on failure */
